@@ -87,7 +87,7 @@ func main() {
 		runC06proc(c)
 	case "C12":
 		runC12proc(c)
-	case "C01":
+	case "C01", "C02":
 		runC01proc(c)
 	default:
 		fmt.Println("unknown property for vproc:", *prop)
